@@ -1202,7 +1202,7 @@ impl<'a> Engine<'a> {
             self.sweep(&mut suts[0]);
         }
         // capacities beyond 32 / 64 need histories long enough to fill them
-        let steps = if N > 32 { self.rng.length(3 * N, (5 * N).max(max_steps)) } else { self.rng.length(8, max_steps) };
+        let steps = if N > 256 { self.rng.length(N / 2, N) } else if N > 32 { self.rng.length(3 * N, (5 * N).max(max_steps)) } else { self.rng.length(8, max_steps) };
         let mut escaped = false;
         for _ in 0..steps {
             match fault::catch(|| self.one_op(&mut suts)) {
@@ -1222,7 +1222,7 @@ impl<'a> Engine<'a> {
                     escaped = true;
                 }
             }
-            if escaped || self.h.failed || ledger::viol_total() > 0 {
+            if escaped || self.h.must_stop() {
                 break;
             }
         }
@@ -1294,6 +1294,8 @@ pub fn history<F: Fam, const N: usize>(cx: &mut Ctx, hist: u64, mut rng: Rng, ma
         focus: 1,
     };
     e.light = e.cx.args.flag("light");
+    e.h.own_prop = e.cx.prop.clone();
+    e.h.tag_mod = F::TAG_MOD;
     if e.cx.prop == "C07" {
         // C07 lists drain among its operations: the elements a drain hands back are its return value
         e.h.dual.push(("C10", "drain", "C07"));
